@@ -6,6 +6,7 @@ import os
 ROOT = os.path.dirname(os.path.dirname(os.path.abspath(__file__)))
 
 MC = "model_checking"
+FE = "fault_enumeration"
 CHECKS = {
     # id: (category, technique, text, note, design_ref)
     "C16": (
@@ -188,6 +189,16 @@ CHECKS = {
         "raise-once (incl. a second run), only-callback-exceptions, terminates.",
         "Trusted: mc/virt/loops.py environments behave as a legal OS; idle slack 12 ms virtual; tornado/trio time tolerance 1-2 ms; trio explored through its batch-reversal coin only.",
         "DESIGN.md §4 C13",
+    ),
+    "C12": (
+        FE,
+        "fault enumeration over scripted MainLoop sessions on a real pty: one clean session per configuration counts the callback-site invocations, then one session per invocation index and exception kind raises exactly there; every session runs in its own forked process under a watchdog, the display output is decoded by the reference terminal",
+        "4 scripts (keys; three keys in one read; mouse press+release, alarm; resize, pipe write, watched descriptor) x select/asyncio/tornado/twisted/trio/zmq x raw Screen with and without "
+        "hook_event_loop x pop_ups x bracketed paste + focus reporting x default / custom SIGWINCH, SIGTSTP, SIGCONT handlers; sites: input filter, keypress, mouse_event, unhandled_input, alarm, "
+        "watch, pipe, render in the idle redraw; kinds: ExitMainLoop, Exception subclass, SystemExit; clean-run clauses order, redraw-before-wait; fault clauses exit-clean, propagates (same "
+        "object), screen-stopped, modes-restored, termios-restored, signals-restored, returns.",
+        "Trusted: mc/refs/vt_ref.py mode tracking; sessions use real loops and real time (4 s watchdog); signals delivered synchronously; evidence digest is not re-executed (timing).",
+        "DESIGN.md §4 C12",
     ),
 }
 
